@@ -358,9 +358,11 @@ impl<'a> WrappedLogosLexer<'a> {
     fn post_process_block_comment(block_comment: &str) -> String {
       block_comment
         .split('\n')
-        .map(|line| {
+        .enumerate()
+        .map(|(i, line)| {
           let l = line.trim_start();
-          if l.starts_with('*') {
+          // Only a continuation line starts with a decorative `*`; on the first line it is text.
+          if i > 0 && l.starts_with('*') {
             l.chars().skip(1).collect::<String>().trim().to_string()
           } else {
             l.trim_end().to_string()
